@@ -913,6 +913,20 @@ def run(ctx) -> None:
     r4_write_semantics(ctx, m, shot, lp)
     r5_strict(ctx, m, res)
     r6_wrappers(ctx, m, res)
+    # the entries are replayed once per conversion (to_register_bits, collate_tags, as_dict, ..): the shot must own a LIST of them,
+    # whatever iterable it was built from
+    ctx.rule("C19.R7", "a shot owns its entries as a list: the constructor materialises the iterable it is given", floor=1)
+    init = shot.find_method("__init__")[1]
+    if init is None:
+        ctx.fail("C19.R7", "QsysShot.__init__: entries materialised", m.path, shot.node.lineno,
+                 "QsysShot has no constructor of its own: the generated one keeps the `entries` argument as given, so a one-shot iterable "
+                 "(zip, generator) is emptied by the first conversion and every later one replays nothing", shot.node)
+    else:
+        from ..rulekit import need_exact
+        need_exact(ctx, "C19.R7", f"{MOD}.QsysShot.__init__", "QsysShot.__init__: entries materialised",
+                   [["self.entries = list(L_e or [])"], ["self.entries = list(L_e) if L_e else []"], ["self.entries = [] if L_e is None else list(L_e)"],
+                    ["self.entries = list(L_e) if L_e is not None else []"], ["self.entries = [*(L_e or [])]"], ["self.entries = [*(L_e or ())]"], ["self.entries = list(L_e or ())"]],
+                   "the entries must be copied into a list")
     from .. import lints
     lints.arm(ctx)
 
@@ -921,6 +935,7 @@ def run(ctx) -> None:
 # ---------------------------------------------------------------------------------------
 Q = "hugr-py/src/hugr/qsystem/result.py"
 MUTANTS = [
+    dict(name="entries-kept-as-given", file=Q, expect="C19.R7", old="        self.entries = list(entries or [])", new="        self.entries = entries or []"),
     dict(name="str-of-bool", file=Q, expect="C19.R1", old="        return str(int(data))  # type: ignore[return-value]", new="        return str(data)  # type: ignore[return-value]"),
     dict(name="guard-accepts-two", file=Q, expect="C19.R1", old="    if isinstance(data, int) and data in {0, 1}:", new="    if isinstance(data, int) and data in {0, 1, 2}:"),
     dict(name="guard-accepts-floats", file=Q, expect="C19.R1", old="    if isinstance(data, int) and data in {0, 1}:", new="    if data in {0, 1}:"),
